@@ -116,7 +116,7 @@ def rad50(state, string: str) -> bytes:
             string = get_as_str(state, "'.rad50' operand", state["insn"], chunk)
             for char in string:
                 try:
-                    val = radix50.TABLE.index(char.upper())
+                    val = radix50.encode_char(char)
                 except ValueError:
                     reports.error(
                         "invalid-character",
